@@ -144,7 +144,12 @@ pub fn build(r: &mut Rng, kind: ConnKind, client: Endpoint, server: Endpoint, o:
         ConnKind::Garbage => {
             let n = r.urange(1, 400);
             let m = r.urange(0, 400);
-            (r.bytes(n), r.bytes(m))
+            // one in three: well-framed but degenerate TLS records (empty bodies, bare handshake headers)
+            if r.chance(1, 3) {
+                (tls::degenerate(r), if r.chance(1, 2) { tls::degenerate(r) } else { r.bytes(m) })
+            } else {
+                (r.bytes(n), r.bytes(m))
+            }
         }
     };
     let parts_c = if (kind == ConnKind::Tls && o.tls_single_segment) || kind == ConnKind::TlsThenHttpResponse { 1 } else { o.max_parts };
